@@ -550,6 +550,27 @@ def check_pair(res, kind, xt, yt, how):
             res.violation("equal-but-different:%s" % sig, "x == y but they behave differently (probe %d): x=%s, y=%s"
                           % (i, T.show(xt), T.show(yt)), case, observed=by[i], expected=bx[i])
             return
+        if how == "rebuild":
+            # the object has now been used on every probe document: it still equals a copy built afresh, and the fresh
+            # copy behaves as the used one did
+            res.count("transitions", 2)
+            try:
+                z = build(kind, xt)
+                still = (x == z) and (z == x)
+                bz = behaviour(kind, z)
+            except BaseException as e:
+                res.violation("eq-raises:%s:%s" % (kind, type(e).__name__), "comparing the used %s with a fresh copy raised %r"
+                              % (T.show(xt), e), case, observed=repr(e))
+                return
+            if not still:
+                res.violation("copy-unequal:%s:after-use" % kind, "after being used on the probe documents %s no longer equals a "
+                              "copy built afresh: %r" % (T.show(xt), x), case, observed=repr(x), expected=repr(z))
+                return
+            if bz != bx:
+                i = next(i for i in range(len(bx)) if bx[i] != bz[i])
+                res.violation("equal-but-different:%s:after-use" % kind, "a used %s and a fresh copy are equal but behave differently "
+                              "(probe %d)" % (T.show(xt), i), case, observed=bx[i], expected=bz[i])
+                return
         res.count("nontrivial")
     res.count("validated")
     res.outcome((kind, xy))
